@@ -232,8 +232,10 @@ RestoreOK ==
           /\ durable' = IF Ev.ndir = 2 THEN 0 ELSE durable
           /\ rfrom' = Ev.iter
           \* reported without stopping the trace (the rest is still judged): C10's check turns it into a verdict
-          /\ (\E x \in savedp : x[1] = Ev.iter /\ x[2] # Ev.pdig) =>
-                PrintT(<<"DRIFT", tid, "C10 restore: the policy field differs from the one handed to save() at that step">>)
+          /\ (\E x \in savedp : x[1] = Ev.iter /\ x[2] # Ev.pdig /\ Ev.pdig = "none") =>
+                PrintT(<<"DRIFT", tid, "C10 restore: the policy field differs from the one handed to save() at that step (saved policy dropped)">>)
+          /\ (\E x \in savedp : x[1] = Ev.iter /\ x[2] # Ev.pdig /\ Ev.pdig # "none") =>
+                PrintT(<<"DRIFT", tid, "C10 restore: the policy field differs from the one handed to save() at that step (another policy present)">>)
           /\ Step
           /\ UNCHANGED <<onDisk, crashed, savedp>>
 
